@@ -391,6 +391,9 @@ func Choose(n int, costs []int8) int {
 		return 0
 	}
 	s := S
+	if costs != nil && costs[0] != 0 {
+		panic("vrt.Choose: the default alternative (index 0) must cost 0")
+	}
 	c := s.choose(n, 'e', false, costs)
 	if s.Opt.Trace {
 		s.TraceLog = append(s.TraceLog, fmt.Sprintf("   env choice %d of %d", c, n))
